@@ -5,7 +5,7 @@ backed by python-dateutil's battle-tested rrule implementation.
 """
 
 from collections.abc import Iterable
-from datetime import datetime, timedelta
+from datetime import datetime, timedelta, tzinfo
 from typing import Any, Generic, Literal, TypeAlias, TypeVar
 from zoneinfo import ZoneInfo
 
@@ -112,6 +112,30 @@ _RRULE_LIST_FIELDS = {
     "byminute": "BYMINUTE",
     "bysecond": "BYSECOND",
 }
+
+
+def _anchor_wall_clock(
+    anchor_timestamp: int, start_seconds: int, zone: tzinfo
+) -> datetime:
+    """The anchor instant as a datetime at the pattern's own wall-clock time.
+
+    An anchor given inside a DST gap denotes an instant whose local reading is
+    later than the time of day the pattern recurs at, and falls on the next
+    local day when the gap runs up to midnight.  Returns the reading at
+    ``start_seconds`` on the anchor's local date, or on the day before, when it
+    denotes the anchor instant (a non-existent local time is read with the UTC
+    offset before the gap); the plain local reading otherwise.
+    """
+    local = datetime.fromtimestamp(anchor_timestamp, tz=zone)
+    for day in (local, local - timedelta(days=1)):
+        wall = day.replace(
+            hour=start_seconds // 3600,
+            minute=start_seconds % 3600 // 60,
+            second=start_seconds % 60,
+        )
+        if int(wall.timestamp()) == anchor_timestamp:
+            return wall
+    return local
 
 
 def _to_int_list(val: int | str | list[int | str] | None) -> list[int] | None:
